@@ -399,7 +399,10 @@ fn gs1_players_unit() {
     m.insert("frags_0".to_string(), "5".to_string());
     m.insert("ping_0".to_string(), "30".to_string());
     m.insert("x".to_string(), "y".to_string());
-    let r = gamespy::one::verif_unit::extract_players(&mut m, 8);
+    // the server-reported maxplayers is symbolic (every u32): a player that was sent is
+    // returned whatever the limit says
+    let max: u32 = kani::any();
+    let r = gamespy::one::verif_unit::extract_players(&mut m, max);
     match &r {
         Ok(ps) => {
             assert!(ps.len() == 1);
